@@ -5,6 +5,8 @@
 -/
 import NutsModel.C14.Options
 import NutsModel.Facts.C14
+import NutsProofs.Lemmas.C14Budget
+import NutsProofs.Props.C14
 
 namespace Nuts.C14.Props
 open Nuts.C14
@@ -255,5 +257,58 @@ theorem retry_delay_never_overflows (retryDelay : Int) (h0 : 0 ≤ retryDelay) (
 example : delayM 18000000000000 19 < 0 := by decide
 example : retryAttemptsM 20 (-1) = none ∧ retryAttemptsM 20 0 = some 19 ∧ retryAttemptsM 20 18 = some 1 ∧ retryAttemptsM 20 19 = none ∧
     retryAttemptsM 20 9223372036854775807 = none ∧ retryAttemptsM 20 (-9223372036854775808) = none := by decide
+
+/-! ### the retry budget over all histories (incl. duplicate payload messages) -/
+
+/-- **calls_bounded_by_budget**: in one run of the node (any op sequence without a restart: admissions with and without
+    payload, rejected / failed / duplicate admissions, payload messages incl. DUPLICATE ones for the same transaction,
+    AfterCommit notifications in any Range order, timers in any order, external Finished, stops, storage faults) a typed
+    persistent subscriber is called at most `maxRetries` times for one event — it is not called again after a fatal
+    error or after the budget is spent, and no second retry loop with a fresh budget is started.
+    Needs the `payloadWritten` guard of State.WritePayload (`notifyGuarded`, fact_writePayload_notifies_only_what_it_saved)
+    and the per-transaction skip (`skipPresent`). (A restart replays every job once more: `Run`.) -/
+theorem calls_bounded_by_budget (c : Cfg) (hM : 1 ≤ c.maxRetries) (hskip : c.skipPresent = true) (hg : c.notifyGuarded = true)
+    (ops : List Op) (hops : ∀ op, op ∈ ops → NoRestart op) (s r : Nat) (t : EvType) (htyp : Typed c s t) :
+    attemptNo (run c init ops) s r ≤ c.maxRetries := by
+  have h := (Bud.init c s r t).run hM hskip hg htyp ops hops
+  have := h.pot
+  unfold spent at this
+  omega
+
+/-- a payload message for a transaction whose payload event was saved before changes nothing: nothing saved, nobody notified -/
+theorem duplicate_payload_write_is_silent (c : Cfg) (hskip : c.skipPresent = true) (hg : c.notifyGuarded = true) (σ : St) (ref : Nat)
+    (cf : Bool) (h : ref ∈ σ.evented) : (writePayload c σ ref cf).1 = σ := by
+  unfold writePayload
+  split; · rfl
+  split; · rfl
+  split
+  · simp [hg]
+  · next hn => exact absurd ⟨hskip, h⟩ hn
+
+/-- non-vacuity + the bound is reached: never-completing subscriber, one payload message and TWO duplicates, 19 timers -/
+def dupOps : List Op :=
+  [.add { ref := 1 }, .afterCommit [0, 1, 2, 3, 4], .writePayload 1 false, .afterCommit [0, 1, 2, 3, 4]] ++
+  List.replicate 19 (.fire 3 1) ++ [.writePayload 1 false, .afterCommit [4, 3, 2, 1, 0], .writePayload 1 false, .afterCommit [0, 1, 2, 3, 4]]
+
+def neverDone' : Nat → Nat → Nat → Outcome := fun s _ _ => if s = 3 then .notDone else .done
+def wCfg' (guarded : Bool) (beh : Nat → Nat → Nat → Outcome) : Cfg := { wCfg true beh with notifyGuarded := guarded }
+
+example : attemptNo (run (wCfg' true neverDone') init dupOps) 3 1 = 20 := by decide
+example : ∀ op, op ∈ dupOps → NoRestart op := by
+  intro op h
+  simp only [dupOps, List.mem_append, List.mem_cons, List.mem_replicate, List.not_mem_nil, or_false] at h
+  rcases h with ((rfl | rfl | rfl | rfl) | ⟨_, rfl⟩) | rfl | rfl | rfl | rfl <;> simp [NoRestart]
+
+/-- **witness without the guard** (State.WritePayload notifying after every commit): the duplicate payload message calls a
+    subscriber again AFTER its fatal error (2 calls, the second one sees retries = maxRetries + 1) -/
+def fatalAt3 : Nat → Nat → Nat → Outcome := fun s _ _ => if s = 3 then .fatal else .done
+def dupFatalOps : List Op :=
+  [.add { ref := 1 }, .afterCommit [0, 1, 2, 3, 4], .writePayload 1 false, .afterCommit [0, 1, 2, 3, 4],
+   .writePayload 1 false, .afterCommit [0, 1, 2, 3, 4]]
+
+theorem duplicate_payload_calls_again_without_guard :
+    (run (wCfg' false fatalAt3) init dupFatalOps).ledger.filter (Entry.isCallOf 3 1) =
+      [.call 3 1 .payload 21 .fatal, .call 3 1 .payload 0 .fatal] ∧
+    (run (wCfg' true fatalAt3) init dupFatalOps).ledger.filter (Entry.isCallOf 3 1) = [.call 3 1 .payload 0 .fatal] := by decide
 
 end Nuts.C14.Props
